@@ -80,7 +80,7 @@ func renderAny(v reflect.Value) string {
 func execDecGen(a []string) string {
 	sig, data := string(unhx(a[0])), unhx(a[1])
 	return withTimeout(4*time.Second, func() string {
-		r := bytes.NewReader(data)
+		r, left := newDataReader(data)
 		var v interface{}
 		var err error
 		switch sig {
@@ -96,7 +96,7 @@ func execDecGen(a []string) string {
 		if err != nil {
 			return "err"
 		}
-		return fmt.Sprintf("ok %s rest=%d", renderAny(reflect.ValueOf(v)), r.Len())
+		return fmt.Sprintf("ok %s rest=%d", renderAny(reflect.ValueOf(v)), left())
 	})
 }
 
@@ -104,12 +104,12 @@ func execDecGen(a []string) string {
 func execDecCap(a []string) string {
 	data := unhx(a[0])
 	return withTimeout(4*time.Second, func() string {
-		r := bytes.NewReader(data)
+		r, left := newDataReader(data)
 		m, err := bus.ReadCapabilityMap(r)
 		if err != nil {
 			return "err"
 		}
-		return fmt.Sprintf("ok %s rest=%d", renderAny(reflect.ValueOf(map[string]value.Value(m))), r.Len())
+		return fmt.Sprintf("ok %s rest=%d", renderAny(reflect.ValueOf(map[string]value.Value(m))), left())
 	})
 }
 
